@@ -325,7 +325,7 @@ def get_field_case(run, ps, rng, k):
     paste = ['TSC', 'CIC'][k % 2]
     N = int(rng.choice([10, 500]))
     pos = rng.uniform(0, box, (N, 3)).astype(np.float32)
-    d = [0.0, 0.5 * box / n][(k // 2) % 2]
+    d = [0.0, 0.5, -0.5, 0.25, -0.75][(k // 2) % 5] * box / n  # the sub-cell shift may have either sign
     nthread = int(rng.choice([1, 2, 4]))
     w = rng.uniform(0.2, 3.0, N).astype(np.float32) if (k // 4) % 2 else None
     run.ev()
